@@ -357,6 +357,7 @@ def stepLine1 (w : World) (toks : List String) : World × String :=
   | "overlap" :: _ => (w, "done")
   | "inside" :: _ => (w, "done")
   | "race" :: _ => (w, "done")
+  | "pairs" :: _ => (w, "done")
   | "mforced" :: _ => (w, "done")
   | "alias" :: _ => (w, "done")
   | "cross" :: _ => (w, "done")
